@@ -1,5 +1,5 @@
 """C20 - unknown-command diagnostics name the truly nearest command."""
-from .. import lib, strgen
+from .. import lib, strgen, scen
 from . import common
 
 
@@ -67,6 +67,69 @@ def distance_stream(rep, rng, n, exhaustive=False):
     return True
 
 
+def oracle_c20_message(sc, g):
+    """implementation only: the ErrCommandRequired / ErrUnknownCommand message names the visible command nearest to the given word
+    (reference Levenshtein over characters; any of the nearest on ties) if its distance is below half its length, otherwise it
+    enumerates exactly the visible commands in sorted order; hidden commands never appear"""
+    if "meta" not in sc:
+        return None
+    for o, r in zip(sc["ops"], g["ops"]):
+        if o["op"] != "parse" or r.get("panic"):
+            continue
+        e = scen.decode_err(r["err"])
+        if e is None or e[0] != "F" or e[1] not in (11, 12):
+            continue
+        node = sc["meta"]
+        try:
+            for idx in [int(x) for x in r.get("active", "").split(".") if x != ""]:
+                node = node["subs"][idx]
+        except (IndexError, ValueError):
+            continue
+        names = sorted(s2["name"] for s2 in node["subs"] if not s2.get("hidden"))
+        if len(set(names)) != len(names):
+            continue
+        def enum():
+            if len(names) == 1: return None
+            return b", ".join(names[:-1]) + b" or " + names[-1]
+        msg = e[2]
+        if e[1] == 11:
+            want = b"" if not names else (b"Please specify the " + names[0] + b" command" if len(names) == 1 else b"Please specify one command of: " + enum())
+            if msg != want:
+                return "ErrCommandRequired message %r, expected %r (visible commands %r)" % (msg, want, names)
+            continue
+        pre = b"Unknown command `"
+        if not msg.startswith(pre):
+            return "ErrUnknownCommand message has an unexpected shape: %r" % (msg,)
+        tails = [(b"', did you mean `" + c + b"'?", ("mean", c)) for c in names]
+        if len(names) == 1: tails.append((b"'. You should use the " + names[0] + b" command", ("enum", None)))
+        if len(names) > 1: tails.append((b"'. Please specify one command of: " + enum(), ("enum", None)))
+        if not names: tails.append((b"'", ("none", None)))
+        hit = [(t, k) for t, k in tails if msg.endswith(t)]
+        if not hit:
+            return "ErrUnknownCommand message %r neither suggests a visible command nor enumerates the visible commands %r" % (msg, names)
+        t, (kind, c) = max(hit, key=lambda x: len(x[0]))
+        word = msg[len(pre):len(msg) - len(t)]
+        if not names:
+            continue
+        dist = {n: ref_lev(strgen.go_runes(word), strgen.go_runes(n)) for n in names}
+        best = min(dist.values())
+        near = [n for n in names if dist[n] == best]
+        # the threshold is ambiguous between bytes and characters for non-ASCII names: judge only when both readings agree
+        def below(n):
+            a = dist[n] / len(n) < 0.5 if len(n) else False
+            b = dist[n] / len(strgen.go_runes(n)) < 0.5 if len(n) else False
+            return a if a == b else None
+        if kind == "mean":
+            if c not in near:
+                return "suggested %r (distance %d) but %r is nearer to %r (distance %d)" % (c, dist[c], near[0], word, best)
+            if below(c) is False:
+                return "suggested %r although its distance %d to %r is not below half its length" % (c, dist[c], word)
+        else:
+            if all(below(n) is True for n in near):
+                return "no suggestion although %r is at distance %d (< half its length) from %r" % (near[0], best, word)
+    return None
+
+
 def run(rep, tier, rng, replay=None):
     rep.cov["rule"] = ("distance stream: pairs (s,t) of byte strings (ASCII / multi-byte / invalid UTF-8, lengths 0-7, t a small edit of s "
                        "half of the time) through the hook VerifLevenshtein vs model lev_go (evaluated in Coq) vs a Python reference; "
@@ -82,5 +145,5 @@ def run(rep, tier, rng, replay=None):
     from . import parsecheck
     cfg = parsecheck.CONFIG["C20"]
     common.scenario_check(rep, rng, "C20", 400 if tier == "quick" else 15000, profile=cfg["profile"], keys=cfg["keys"], transform=None,
-                          theorem_names="C20_message", stream="message",
+                          theorem_names="C20_message", stream="message", oracle=oracle_c20_message,
                           nontrivial=lambda sc, g: bool(g["ops"]) and g["ops"][0].get("err", "").startswith(("F:11", "F:12")))
